@@ -179,7 +179,10 @@ def ref_time(r):
 
 def options(r):
     return {"latent_time": r.random() < 0.6, "max_stack_depth": r.choice([10, 10, 1, 0]), "relative_match_len": r.choice([1.0, 1.0, 0.8, 0.5, 0.1, 1e-9]),
-            "scorer": r.choice(["shipped", "shipped", "constant", "random"]), "debug": r.random() < 0.15}
+            "scorer": r.choice(["shipped", "shipped", "constant", "random", "trained"]), "debug": r.random() < 0.15}
+
+
+_TRAINED = {}
 
 
 def make_scorer(L, name, seed):
@@ -188,4 +191,16 @@ def make_scorer(L, name, seed):
         return None
     if name == "constant":
         return L.scorer.DummyScorer()
+    if name == "trained":
+        # a naive-Bayes scorer over a model OTHER than the shipped one (a user's own model): a small deterministic training
+        # set over the registered rule names and pattern ids; one model per process, a fresh scorer object per call
+        if "m" not in _TRAINED:
+            r = random.Random(20210310)
+            names = sorted(L.registry) + [str(i) for i in sorted(L.rule._regex)]
+            X, y = [], []
+            for i in range(400):
+                X.append(tuple(r.choice(names) for _ in range(r.randrange(1, 8))))
+                y.append(i % 3 != 0)
+            _TRAINED["m"] = L.nb_scorer.train_naive_bayes(X, y)
+        return L.nb_scorer.NaiveBayesScorer(_TRAINED["m"])
     return L.scorer.RandomScorer(random.Random(seed))
